@@ -305,7 +305,7 @@ Fixpoint shape (f : Field) (b : Builder) {struct b} : Prop :=
   match b with
   | BdBool v _ _ => fdt' f = DBool /\ vnull f v
   | BdPrim k v _ => fdt' f = DPrim k /\ vnull f v
-  | BdUtf8 k v _ _ => fdt' f = DBytes k /\ is_utf8_kind k = true /\ vnull f v
+  | BdUtf8 k v _ _ => fdt' f = DBytes k /\ vnull f v
   | BdList k v _ m e => exists cf, fdt' f = DList k cf /\ m = meta_of cf /\ vnull f v /\ shape cf e
   | BdStruct _ v cs =>
     exists fs, fdt' f = DStruct fs /\ vnull f v /\ NoDup (map fname' fs) /\
@@ -373,7 +373,7 @@ Lemma leaf_utf8 f k v offs data lvs s b' :
    Ok (BdUtf8 k val' offs' (data ++ s))) = Ok b' ->
   content b' = Some (lvs ++ [LBytes s]) /\ shape f b'.
 Proof.
-  intros (Hd & Hu & Hv) [Hwv Ho] Hc H. apply bind_ok in H as (v' & Hs & H). apply bind_ok in H as (offs' & Hi & H). injection H as <-.
+  intros (Hd & Hv) [Hwv Ho] Hc H. apply bind_ok in H as (v' & Hs & H). apply bind_ok in H as (offs' & Hi & H). injection H as <-.
   rewrite (increment_dup _ _ _ _ _ Ho Hi). split.
   - exact (ext_utf8 k v offs data lvs v' true s Ho Hc (VStep_set _ _ _ _ Hwv Hs)).
   - repeat split; try assumption. eapply vnull_set; eassumption.
@@ -681,7 +681,7 @@ Proof.
   intros b. induction b as [v vals len|k v vals|k v offs data|k v offs m e IHe|len v cs IH] using Builder_ind'; intros f Hs; cbn [push_default].
   - destruct Hs as [Hd Hv]. split; [exact Hd|apply vnull_default, Hv].
   - destruct Hs as [Hd Hv]. split; [exact Hd|apply vnull_default, Hv].
-  - destruct Hs as (Hd & Hu & Hv). repeat split; try assumption. apply vnull_default, Hv.
+  - destruct Hs as (Hd & Hv). repeat split; try assumption. apply vnull_default, Hv.
   - destruct Hs as (cf & Hd & Hm & Hv & He). exists cf. repeat split; try assumption. apply vnull_default, Hv.
   - apply shape_struct in Hs as (fs & Hd & Hv & Hn & Hch). apply shape_struct. exists fs. repeat split; try assumption; [apply vnull_default, Hv|].
     unfold ShapeCh in *. clear Hd Hn. induction Hch as [|cf [m c] fs' cs' [Hm Hs] _ IHch]; [constructor|].
@@ -694,7 +694,7 @@ Proof.
     apply bind_ok in H as (v' & Hv' & H); injection H as <-.
   - destruct Hs as [Hd Hv]. split; [exact Hd|eapply vnull_set; eassumption].
   - destruct Hs as [Hd Hv]. split; [exact Hd|eapply vnull_set; eassumption].
-  - destruct Hs as (Hd & Hu & Hv). repeat split; try assumption. eapply vnull_set; eassumption.
+  - destruct Hs as (Hd & Hv). repeat split; try assumption. eapply vnull_set; eassumption.
   - destruct Hs as (cf & Hd & Hm & Hv & He). exists cf. repeat split; try assumption. eapply vnull_set; eassumption.
   - apply shape_struct in Hs as (fs & Hd & Hv & Hn & Hch). apply shape_struct. exists fs. repeat split; try assumption; [eapply vnull_set; eassumption|].
     unfold ShapeCh in *. clear Hd Hn. induction Hch as [|cf [m c] fs' cs' [Hm Hs] _ IHch]; [constructor|].
@@ -937,16 +937,18 @@ Proof.
     exists (LInt z). split; [|split; assumption].
     destruct f as [nm dt nl]. destruct Hs as [Hd _]. cbn [fdt'] in Hd. subst dt.
     rewrite <- (prim_value_scalar _ _ _ Hz). destruct v; try discriminate Hsc; reflexivity.
-  - (* string column *)
+  - (* string column; a binary column takes no scalar *)
+    destruct (is_utf8_kind k) eqn:Hu.
+    2:{ exfalso. destruct v; try discriminate Hsc; cbn [push] in Hp; rewrite Hu in Hp; discriminate Hp. }
     assert (Hp' : match text_of_scalar v with
                   | IOk (LBytes s) => do val' <- set_validity val (length offs - 1) true ;;
                                       do offs' <- increment_last (is_wide k) (duplicate_last offs) (length s) ;;
                                       Ok (BdUtf8 k val' offs' (data ++ s))
-                  | _ => Err end = Ok b') by (destruct v; try discriminate Hsc; exact Hp).
+                  | _ => Err end = Ok b') by (destruct v; try discriminate Hsc; cbn [push] in Hp; rewrite Hu in Hp; exact Hp).
     destruct (text_of_scalar v) as [[| | |s| | | |]| |] eqn:Et; try discriminate Hp'.
     destruct (leaf_utf8 _ _ _ _ _ _ _ _ Hs Hw Hc Hp') as [Hc' Hs'].
     exists (LBytes s). split; [|split; assumption].
-    destruct f as [nm dt nl]. destruct Hs as (Hd & Hu & _). cbn [fdt'] in Hd. subst dt. rewrite <- Et.
+    destruct f as [nm dt nl]. destruct Hs as (Hd & _). cbn [fdt'] in Hd. subst dt. rewrite <- Et.
     destruct k; try discriminate Hu; destruct v; try discriminate Hsc; reflexivity.
   - destruct v; try discriminate Hsc; discriminate Hp.
   - destruct v; try discriminate Hsc; discriminate Hp.
@@ -960,7 +962,7 @@ Proof.
   destruct cf as [nm dt nl]. destruct e as [val vals len|k val vals|k val offs data|k val offs m e|len val cs]; cbn [shape fdt'].
   - intros [-> _]. reflexivity.
   - intros [-> _]. reflexivity.
-  - intros (-> & Hu & _). destruct k; try discriminate Hu; reflexivity.
+  - intros (-> & _). destruct k; reflexivity.
   - intros (cf' & -> & _). reflexivity.
   - intros (fs & -> & _). reflexivity.
 Qed.
@@ -986,6 +988,24 @@ Proof.
   - apply H. - apply H. - apply H. - destruct H as (cf & _ & _ & Hv & _). exact Hv. - destruct H as (fs & _ & Hv & _). exact Hv.
 Qed.
 
+(* a binary column: bytes, or a sequence / tuple of u8 *)
+Lemma binary_sound v f k val offs data b' lvs : is_utf8_kind k = false ->
+  shape f (BdUtf8 k val offs data) -> WfB (BdUtf8 k val offs data) -> content (BdUtf8 k val offs data) = Some lvs ->
+  (do s <- binary_of_value v ;;
+   do val' <- set_validity val (length offs - 1) true ;;
+   do offs' <- increment_last (is_wide k) (duplicate_last offs) (length s) ;;
+   Ok (BdUtf8 k val' offs' (data ++ s))) = Ok b' ->
+  match v with VBytes _ | VSeq _ | VTuple _ | VTupleStruct _ => True | _ => False end ->
+  exists lv, interp f v = IOk lv /\ content b' = Some (lvs ++ [lv]) /\ shape f b'.
+Proof.
+  intros Hu Hs Hw Hc Hp Hv. apply bind_ok in Hp as (s & Hb & Hp). destruct (leaf_utf8 _ _ _ _ _ _ _ _ Hs Hw Hc Hp) as [Hc' Hs'].
+  exists (LBytes s). split; [|split; assumption].
+  destruct f as [nm dt nl]. destruct Hs as (Hd & _). cbn [fdt'] in Hd. subst dt.
+  destruct k; try discriminate Hu; destruct v; try contradiction; cbn [interp fdt' binary_of_value] in *;
+    try (injection Hb as ->; reflexivity);
+    match type of Hb with match ?e with _ => _ end = _ => destruct e as [[| | |?| | | |]| |]; try discriminate Hb; injection Hb as ->; reflexivity end.
+Qed.
+
 Theorem push_sound : forall v, Sound push v.
 Proof.
   intros v. induction v as [x|k z|x|x|c|s|s| |x IHx| | |x IHx|l IHl|l IHl|l IHl|kvs IHk|fields IHf|i n|i n x IHx|i n l IHl|i n fields IHf] using Value_ind';
@@ -993,6 +1013,7 @@ Proof.
   - (* bytes: only list columns take them, byte by byte *)
     intros f b b' lvs Hs Hw Hc Hp.
     destruct b as [val vals len|k val vals|k val offs data|k val offs m e|len val cs]; cbn [push] in Hp; try discriminate Hp; try (rewrite prim_value_nonscalar in Hp by exact I; discriminate Hp).
+    all: try (match type of Hp with context [is_utf8_kind ?kk] => destruct (is_utf8_kind kk) eqn:Hu; [discriminate Hp|] end; exact (binary_sound _ f _ _ _ _ b' lvs Hu Hs Hw Hc Hp I)).
     assert (HS : Forall (Sound push_scalar) (map (fun c : N => VInt U8 (Z.of_N c)) s)).
     { apply Forall_map. apply Forall_forall. intros c _ f0 b0 b0' lvs0 H1 H2 H3 H4. rewrite push_scalar_int in H4.
       exact (sound_scalar (VInt U8 (Z.of_N c)) eq_refl f0 b0 b0' lvs0 H1 H2 H3 H4). }
@@ -1022,6 +1043,7 @@ Proof.
   - (* seq *)
     intros f b b' lvs Hs Hw Hc Hp.
     destruct b as [val vals len|k val vals|k val offs data|k val offs m e|len val cs]; cbn [push] in Hp; try discriminate Hp; try (rewrite prim_value_nonscalar in Hp by exact I; discriminate Hp).
+    all: try (match type of Hp with context [is_utf8_kind ?kk] => destruct (is_utf8_kind kk) eqn:Hu; [discriminate Hp|] end; exact (binary_sound _ f _ _ _ _ b' lvs Hu Hs Hw Hc Hp I)).
     assert (HP : Forall (PushOk push) l) by (apply Forall_forall; intros x _; apply push_wf).
     destruct (push_list_sound push f k val offs m e l lvs b' IHl HP Hs Hw Hc Hp) as (cf & news & Hd & Ha & Hc' & Hs').
     exists (LList news). split; [|split; assumption].
@@ -1030,6 +1052,7 @@ Proof.
     intros f b b' lvs Hs Hw Hc Hp.
     assert (HP : Forall (PushOk push) l) by (apply Forall_forall; intros x _; apply push_wf).
     destruct b as [val vals len|k val vals|k val offs data|k val offs m e|len val cs]; cbn [push] in Hp; try discriminate Hp; try (rewrite prim_value_nonscalar in Hp by exact I; discriminate Hp).
+    all: try (match type of Hp with context [is_utf8_kind ?kk] => destruct (is_utf8_kind kk) eqn:Hu; [discriminate Hp|] end; exact (binary_sound _ f _ _ _ _ b' lvs Hu Hs Hw Hc Hp I)).
     + destruct (push_list_sound push f k val offs m e l lvs b' IHl HP Hs Hw Hc Hp) as (cf & news & Hd & Ha & Hc' & Hs').
       exists (LList news). split; [|split; assumption].
       destruct f as [nm dt nl]. cbn [fdt'] in Hd. subst dt. cbn [interp fdt']. unfold iall_then. rewrite Ha. reflexivity.
@@ -1046,6 +1069,7 @@ Proof.
     intros f b b' lvs Hs Hw Hc Hp.
     assert (HP : Forall (PushOk push) l) by (apply Forall_forall; intros x _; apply push_wf).
     destruct b as [val vals len|k val vals|k val offs data|k val offs m e|len val cs]; cbn [push] in Hp; try discriminate Hp; try (rewrite prim_value_nonscalar in Hp by exact I; discriminate Hp).
+    all: try (match type of Hp with context [is_utf8_kind ?kk] => destruct (is_utf8_kind kk) eqn:Hu; [discriminate Hp|] end; exact (binary_sound _ f _ _ _ _ b' lvs Hu Hs Hw Hc Hp I)).
     + destruct (push_list_sound push f k val offs m e l lvs b' IHl HP Hs Hw Hc Hp) as (cf & news & Hd & Ha & Hc' & Hs').
       exists (LList news). split; [|split; assumption].
       destruct f as [nm dt nl]. cbn [fdt'] in Hd. subst dt. cbn [interp fdt']. unfold iall_then. rewrite Ha. reflexivity.
@@ -1061,6 +1085,7 @@ Proof.
   - (* map presented for a struct *)
     intros f b b' lvs Hs Hw Hc Hp.
     destruct b as [val vals len|k val vals|k val offs data|k val offs m e|len val cs]; cbn [push] in Hp; try discriminate Hp; try (rewrite prim_value_nonscalar in Hp by exact I; discriminate Hp).
+    all: try (match type of Hp with context [is_utf8_kind ?kk] => destruct (is_utf8_kind kk) eqn:Hu; [discriminate Hp|] end; cbn [binary_of_value bind] in Hp; discriminate Hp).
     apply bind_ok in Hp as (val' & Hv' & Hp). apply bind_ok in Hp as (st & Hloop & Hp).
     pose proof Hs as Hs0. apply shape_struct in Hs0 as (fs & Hd & Hvn & Hnd & Hsh). pose proof Hw as Hw0. apply WfB_struct in Hw0 as [_ Hch].
     assert (HP : Forall (fun kv : Value * Value => PushOk push (snd kv)) kvs) by (apply Forall_forall; intros x _; apply push_wf).
@@ -1074,6 +1099,7 @@ Proof.
   - (* struct *)
     intros f b b' lvs Hs Hw Hc Hp.
     destruct b as [val vals len|k val vals|k val offs data|k val offs m e|len val cs]; cbn [push] in Hp; try discriminate Hp; try (rewrite prim_value_nonscalar in Hp by exact I; discriminate Hp).
+    all: try (match type of Hp with context [is_utf8_kind ?kk] => destruct (is_utf8_kind kk) eqn:Hu; [discriminate Hp|] end; cbn [binary_of_value bind] in Hp; discriminate Hp).
     apply bind_ok in Hp as (val' & Hv' & Hp). apply bind_ok in Hp as (st & Hloop & Hp).
     pose proof Hs as Hs0. apply shape_struct in Hs0 as (fs & Hd & Hvn & Hnd & Hsh). pose proof Hw as Hw0. apply WfB_struct in Hw0 as [_ Hch].
     assert (HP : Forall (fun nv : bytes * Value => PushOk push (snd nv)) fields) by (apply Forall_forall; intros x _; apply push_wf).
